@@ -43,6 +43,9 @@ REG = [
     ("AddCategory", ("length", "length"), {"override": True, "max_value": 100.0, "default_unit": "cm"}),
     ("AddCategory", ("time", "time"), {"override": True, "valid_units": ["min"], "min_value": 1.0, "default_value": 2.0}),
     ("AddCategory", ("span", "time"), {"override": True}),
+    # a category without a list of its own beside the restricted category named after its type, and a unit outside that list
+    ("AddCategory", ("tank", "volume"), {}),
+    ("AddUnit", ("volume", "litre", "L", "%f*1000.0", "%f/1000.0"), {}),
 ]
 BAD_REG = [
     ("AddUnit", ("time", "metre again", "m", "%f", "%f"), {}),
@@ -52,8 +55,8 @@ BAD_REG = [
     ("AddCategory", ("lim", "length"), {"valid_units": ["s"]}),
     ("AddUnit", ("newtype", "centimetre again", "cm", "%f", "%f"), {}),
 ]
-UN = ["m", "cm", "km", "s", "min", "zz", "m3", "Mcf", "1000ft3", "nounit"]
-CA = ["length", "depth", "time", "span", "volume", "nope"]
+UN = ["m", "cm", "km", "s", "min", "zz", "m3", "Mcf", "1000ft3", "nounit", "L"]
+CA = ["length", "depth", "time", "span", "volume", "nope", "tank"]
 XS = [1.0, -1.0, 5.0, 20.0, 0.0, 150.0]
 KINDS = [
     "Scalar(c,x,u)", "Scalar(x,u)", "Scalar(x,u,c)", "Scalar(c)", "Scalar(c,unit=u)", "GetValue", "IsValid", "CheckValidity", "obj.GetValidUnits", "db.GetValidUnits", "db.Convert", "db.Convert(list)",
@@ -65,8 +68,8 @@ KINDS = [
 ]  # fmt: skip
 
 
-TYPE_UNITS = {"length": ["m", "cm", "km", "zz"], "time": ["s", "min"], "volume": ["m3", "Mcf", "1000ft3"]}
-CAT_TYPE = {"length": "length", "depth": "length", "span": "length", "time": "time", "volume": "volume"}
+TYPE_UNITS = {"length": ["m", "cm", "km", "zz"], "time": ["s", "min"], "volume": ["m3", "Mcf", "1000ft3", "L"]}
+CAT_TYPE = {"length": "length", "depth": "length", "span": "length", "time": "time", "volume": "volume", "tank": "volume"}
 
 
 def gen_query(r, cats=CA, units=UN, cat_type=CAT_TYPE, type_units=TYPE_UNITS):
@@ -361,7 +364,12 @@ def override_scripts():
     """Scripted histories around one event: a category is used (every query kind, with units of its type), then registered
     again *for another quantity type* (override), then every query is asked again - what was accepted or memoised for the
     old definition must not answer for the new one. Also the reverse order of first use (tuple-pair requests first)."""
-    setup = [("reg", c) for c in REG[:10]] + [("reg", REG[12]), ("reg", REG[13])]
+    def reg(name, *first):
+        """the (first) registration of REG with that call name and those leading arguments"""
+        return ("reg", next(c for c in REG if c[0] == name and tuple(c[1][: len(first)]) == first))
+
+    volume_type = [reg("AddUnitBase", "volume"), reg("AddUnit", "volume", "thousand cubic feet")]
+    setup = [("reg", c) for c in REG[:10]] + volume_type
     scripts = []
     for cat, old_u, new_type, new_u in (("depth", "m", "time", "s"), ("length", "cm", "volume", "m3"), ("time", "s", "length", "m")):
         if cat == "length":
@@ -372,6 +380,17 @@ def override_scripts():
         over = ("reg", ("AddCategory", (cat, new_type), {"override": True}))
         scripts.append(setup2 + [("query", q) for q in qs] + [over] + [("query", q) for q in qs])
         scripts.append(setup2 + [("query", q) for q in reversed(qs)] + [over] + [("query", q) for q in qs])
+    # a unit that names a default category which is registered only later: questions about the unit alone before and after
+    base = [("reg", c) for c in REG[:5]]
+    late_unit = ("reg", ("AddUnit", ("length", "foot", "ft", "%f/0.3048", "%f*0.3048"), {"default_category": "bore"}))
+    late_cat = ("reg", ("AddCategory", ("bore", "length"), {"default_unit": "ft", "min_value": 0.0}))
+    unit_only = [(k, "length", x, "ft", "m", "length") for k in ("Scalar(x,u)", "ObtainQuantity(u)", "GetDefaultCategory", "IsValid", "ObtainQuantity(u,None,caption)", "mul", "add", "Array.IsValid", "FractionScalar", "compare") for x in (-5.0, 5.0)]
+    scripts.append(base + [late_unit] + [("query", q) for q in unit_only] + [late_cat] + [("query", q) for q in unit_only])
+    scripts.append(base + [late_unit, late_cat] + [("query", q) for q in unit_only])
+    scripts.append(base + [late_unit] + [("query", q) for q in unit_only[:4]] + [late_cat] + [("query", q) for q in reversed(unit_only)] + [("reg", ("AddCategory", ("bore", "length"), {"override": True, "default_unit": "m"}))] + [("query", q) for q in unit_only])
+    vol = [("reg", c) for c in REG[:5]] + volume_type + [reg("AddCategory", "volume", "volume"), reg("AddCategory", "tank"), reg("AddUnit", "volume", "litre")]
+    asks = [(k, "tank", 5.0, u, "m3", "volume") for u in ("L", "m3", "Mcf") for k in ("obj.GetValidUnits", "quantity.GetValidUnits", "db.GetValidUnits", "Scalar(c,x,u)", "CheckCategoryUnit")]
+    scripts.append(vol + [("query", q) for q in asks] + [("query", q) for q in asks])
     # tuple-pair requests first, arithmetic afterwards (and the other way round)
     for first, second in (("derived request (tuple pairs)", "arithmetic on a composition"), ("derived request (list overload, tuple items)", "arithmetic on a composition"), ("arithmetic on a composition", "derived request (tuple pairs)")):
         for cat, u in (("length", "m"), ("length", "cm"), ("depth", "m")):
